@@ -130,6 +130,11 @@ PROBES = ["start: mov #start, r0\n.word late, 'x\nlate = . - start\n.ascii /prob
           ".word z\n.repeat q1 { nop }\n.repeat q2 { nop }\n.blkb q3\nq1 = q2\nq2 = q1\nz:\n"]
 
 
+# directives written without their dot (accepted with a 'meta-typo' warning), and the same words used as ordinary names:
+# what one assembly learns about a spelling must not be known to the next
+POOL_VALID += ["word 1, 2\nbyte 3\neven\n", "title Boot block\nword 5\n", "even\nblkb 2\nascii /ok/\n"]
+PROBES += ["word = 7\nword, 5\n", "byte: nop\n.word byte\neven = 2\n.word even\n", "word 1\nword 2\nbyte 3\n", "title Boot block v2\n.word 1\n"]
+
 # a family in which the number of objects the engine creates before the two faulty statements varies (so do the
 # names and ordinals it gives them); the reports must not
 PROBES += ["entry: mov #table, r1\n" + "mov #L, r2\n" * k + "halt\ntable: .word L\n.blkb gap\n.blkb size\nL: .word 0\nsize = count * 2\ncount = size / 2\n" for k in range(0, 12)]
